@@ -228,11 +228,22 @@ pub fn run(cx: &mut Cx) {
         for k in gd::INTR_KINDS {
             cx.ev.require(&format!("intr/{}/{k}", e.name()));
         }
+        for k in gd::BURST_KINDS {
+            cx.ev.require(&format!("intr/{}/{k}", e.name()));
+        }
+        if !mini {
+            cx.ev.require(&format!("intr/{}/each-read", e.name()));
+        }
     }
     cx.ev.require("names/rejected");
     cx.ev.require("names/display");
     if !mini {
         cx.ev.require("str/lengths-0-130-all-covered");
+        // a single line longer than 64 KiB with a marker beyond 64 KiB
+        cx.ev.require("input/marker-beyond-64KiB-of-its-line");
+        for n in gd::BURSTS {
+            cx.ev.require(&format!("intr-burst-len/{n}"));
+        }
     }
 
     // ---- oracle data (harness errors panic here, outside any case) ----
@@ -279,6 +290,25 @@ pub fn run(cx: &mut Cx) {
         if data.windows(2).any(|w| w == b"\r\n") {
             cx.ev.count("input/has-crlf");
         }
+        let longest_line = {
+            let mut best = 0usize;
+            let mut start = 0usize;
+            for &n in newlines.iter().chain(std::iter::once(&len)) {
+                best = best.max(n - start);
+                start = n + 1;
+            }
+            best
+        };
+        cx.ev.max("max/line-len", longest_line as u64);
+        if longest_line > 65536 {
+            cx.ev.count("input/line-longer-than-64KiB");
+        }
+        if markers.iter().any(|&m| {
+            let ls = newlines.iter().rev().find(|&&n| n < m).map_or(0, |&n| n + 1);
+            m - ls >= 65536
+        }) {
+            cx.ev.count("input/marker-beyond-64KiB-of-its-line");
+        }
         if v.plain[3] == v.filtered[3] {
             cx.ev.count("input/patch-filter-is-identity");
         } else {
@@ -298,6 +328,15 @@ pub fn run(cx: &mut Cx) {
         if len > 700 {
             full.push(gd::short(&mut r, len, 9000));
         }
+        if len > 1 {
+            // fixed-size reads: two sizes per input, all sizes over the inputs
+            let c = v.index as usize % gd::READ_CAPS.len();
+            full.push(gd::capped(gd::READ_CAPS[c]));
+            full.push(gd::capped(gd::READ_CAPS[(c + 5) % gd::READ_CAPS.len()]));
+        }
+        if len > 4096 {
+            full.push(gd::blocks(len, [4096, 65536, 1000, 8192, 32768][v.index as usize % 5]));
+        }
         if !markers.is_empty() {
             for off in 0..=6 {
                 full.push(gd::marker(&markers, off));
@@ -314,7 +353,17 @@ pub fn run(cx: &mut Cx) {
         } else {
             gd::interesting_cuts(&mut r, len, &markers, &newlines, 5)
         };
-        let intr_all: Vec<Schedule> = (0..4).map(|k| gd::interrupted(k, &cuts, len)).collect();
+        let mut intr_all: Vec<Schedule> = (0..4).map(|k| gd::interrupted(k, &cuts, len)).collect();
+        if !mini && len <= 300_000 {
+            intr_all.push(gd::interrupted_each_read(len));
+        }
+        // one very long burst on a few inputs: catches any retry limit below it
+        let giant: usize = match tier {
+            Tier::Mini => 0,
+            Tier::Small => 100_003,
+            _ => 1_000_003,
+        };
+        let with_giant = giant > 0 && v.index % 61 == 7;
         let kmax = if len == 0 { 0 } else { cuts.len() + 1 };
 
         for ai in 0..6 {
@@ -408,12 +457,26 @@ pub fn run(cx: &mut Cx) {
                 }
 
                 // ---- Interrupted: same digest, never an error ----
-                let intr_pick: Vec<Schedule>;
-                let intr: &[Schedule] = if mini {
-                    intr_pick = vec![intr_all[(v.index as usize / 6 + shift) % 4].clone()];
-                    &intr_pick
+                // Bursts of consecutive Interrupted: three placements per
+                // (input, algorithm, entry), the burst lengths rotating so
+                // that every length meets every placement and entry point.
+                let mut bursts: Vec<Schedule> = vec![];
+                let intr: Vec<&Schedule> = if mini {
+                    let j = v.index as usize / 6 + shift;
+                    bursts.push(gd::burst(j % 3, gd::MINI_BURSTS[j % gd::MINI_BURSTS.len()], j, &cuts, len));
+                    vec![&intr_all[j % 4], &bursts[0]]
                 } else {
-                    &intr_all
+                    let nb = gd::BURSTS.len();
+                    let j = (v.index as usize).wrapping_mul(6).wrapping_add(ai);
+                    for kind in 0..3 {
+                        // 11 and 23 are coprime to the table length 34
+                        let n = gd::BURSTS[(j + kind * 11 + shift / 3 * 23) % nb];
+                        bursts.push(gd::burst(kind, n, rot + kind, &cuts, len));
+                    }
+                    if with_giant {
+                        bursts.push(gd::burst((rot + shift / 3) % 3, giant, rot, &cuts, len));
+                    }
+                    intr_all.iter().chain(bursts.iter()).collect()
                 };
                 cx.check(
                     || {
@@ -427,7 +490,7 @@ pub fn run(cx: &mut Cx) {
                         )
                     },
                     |ev| {
-                        for s in intr {
+                        for s in intr.iter().copied() {
                             let mut rd = s.reader(data);
                             let got = call(alg, e, &mut rd);
                             ev.eval();
@@ -436,6 +499,12 @@ pub fn run(cx: &mut Cx) {
                                 ev.count(&format!("cell/{}/{}/intr", NAMES[ai], e.name()));
                                 ev.count(&format!("intr/{}/{}", e.name(), s.tag));
                                 ev.max("max/interrupts-per-call", rd.intr_served);
+                                if let Some(n) = s.burst_len() {
+                                    if rd.intr_served >= n as u64 {
+                                        ev.count(&format!("intr-burst-len/{n}"));
+                                        ev.max("max/interrupt-burst", n as u64);
+                                    }
+                                }
                             }
                         }
                         ev.nontrivial(hash_strs(&[
